@@ -1348,6 +1348,7 @@ func init() {
 	defb("evenp", 1, 1, func(ev *Ev, a []*V) []*V { return one(truth(ev.intArg(a[0], "evenp")%2 == 0)) })
 	defb("not", 1, 1, func(ev *Ev, a []*V) []*V { return one(truth(a[0].IsNil())) })
 	defb("null", 1, 1, func(ev *Ev, a []*V) []*V { return one(truth(a[0].IsNil())) })
+	defb("consp", 1, 1, func(ev *Ev, a []*V) []*V { return one(truth(a[0].K == KList)) })
 	defb("eql", 2, 2, func(ev *Ev, a []*V) []*V { return one(truth(eql(a[0], a[1]))) })
 	defb("equal", 2, 2, func(ev *Ev, a []*V) []*V { return one(truth(equal(a[0], a[1]))) })
 	defb("list", 0, -1, func(ev *Ev, a []*V) []*V { return one(List(append([]*V{}, a...)...)) })
@@ -1441,5 +1442,27 @@ func init() {
 			out[k] = primary(vs)
 		}
 		return one(List(out...))
+	}
+	// mapc: the calls of mapcar, the value is the first list
+	special["mapc"] = func(ev *Ev, args []*V, env *Env, _ *V) []*V {
+		need(args, 2, -1, "mapc")
+		a := ev.evalArgs(args, env, "mapc")
+		fn := ev.designator(a[0])
+		lists := make([][]*V, len(a)-1)
+		n := -1
+		for i, l := range a[1:] {
+			lists[i] = properList(l.AsList(), "mapc list")
+			if n < 0 || len(lists[i]) < n {
+				n = len(lists[i])
+			}
+		}
+		for k := 0; k < n; k++ {
+			ca := make([]*V, len(lists))
+			for i := range lists {
+				ca[i] = lists[i][k]
+			}
+			ev.apply(fn, ca, env, "mapc")
+		}
+		return one(a[1])
 	}
 }
